@@ -259,7 +259,7 @@ impl Prop for C16 {
     // coroutine stacks are pooled within the chunk.
     fn runs(&self, tier: Tier) -> u64 {
         match tier {
-            Tier::Quick => GRID * 2 + 1500,
+            Tier::Quick => GRID * 2 + 6000,
             Tier::Thorough => GRID * 16 + 120_000,
         }
     }
